@@ -1,7 +1,410 @@
 package main
 
-import "math/rand"
+// locksvc mode: the GENERATED locksvc archetypes (systems/locksvc/locksvc.go: one AServer, n
+// AClient) over real TCP mailboxes with tracing enabled, scheduled one attempt at a time by the
+// gate in a seeded random order. Ground truth:
+//   - operations on the resources (network, hasLock) are recorded by a decorator around the real
+//     resource (what the generated code really asked the resource to do);
+//   - every message written to network[j] gets a token; a read of network[j] returning the same
+//     value takes the oldest such token (per destination and value: one sender per client mailbox,
+//     distinct values per sender in the server's mailbox), which names the writer attempt;
+//   - operations on archetype locals have no independent ground truth here (the generated body
+//     performs them itself): for those the logged element is taken as the operation, so
+//     ExactElements only binds the resource operations, while hints / ReplayLocals / OwnClock /
+//     OncePerAttempt / Causal are checked in full.
 
-func runLockSvc(traceRoot string, seq int, clients int, rng *rand.Rand) []rec {
+import (
+	"encoding/json"
+	"fmt"
+	"math/rand"
+	"os"
+	"path/filepath"
+	"strings"
+	"time"
+
+	"github.com/DistCompiler/pgo/distsys"
+	"github.com/DistCompiler/pgo/distsys/resources"
+	"github.com/DistCompiler/pgo/distsys/tla"
+	"github.com/DistCompiler/pgo/systems/locksvc"
+)
+
+type resCall struct {
+	read bool
+	name string
+	ix   []tla.Value
+	v    tla.Value
+}
+
+// tap records the leaf operations performed through a (possibly indexed) resource
+type tap struct {
+	inner distsys.ArchetypeResource
+	name  string
+	ix    []tla.Value
+	calls *[]resCall
+	c     *cctx
+}
+
+func (t *tap) Abort(i distsys.ArchetypeInterface) chan struct{} {
+	if len(t.ix) == 0 {
+		t.c.aborts++
+	}
+	return t.inner.Abort(i)
+}
+func (t *tap) PreCommit(i distsys.ArchetypeInterface) chan error { return t.inner.PreCommit(i) }
+func (t *tap) Commit(i distsys.ArchetypeInterface) chan struct{} {
+	if len(t.ix) == 0 {
+		t.c.commits++
+	}
+	return t.inner.Commit(i)
+}
+func (t *tap) ReadValue(i distsys.ArchetypeInterface) (tla.Value, error) {
+	v, err := t.inner.ReadValue(i)
+	if err == nil {
+		*t.calls = append(*t.calls, resCall{true, t.name, t.ix, v})
+	}
+	return v, err
+}
+func (t *tap) WriteValue(i distsys.ArchetypeInterface, v tla.Value) error {
+	err := t.inner.WriteValue(i, v)
+	if err == nil {
+		*t.calls = append(*t.calls, resCall{false, t.name, t.ix, v})
+	}
+	return err
+}
+func (t *tap) Index(i distsys.ArchetypeInterface, x tla.Value) (distsys.ArchetypeResource, error) {
+	r, err := t.inner.Index(i, x)
+	if err != nil {
+		return nil, err
+	}
+	return &tap{inner: r, name: t.name, ix: append(append([]tla.Value{}, t.ix...), x), calls: t.calls, c: t.c}, nil
+}
+func (t *tap) Close() error { return t.inner.Close() }
+
+// boolCell: the hasLock[self] resource of a client (a plain transactional cell)
+type boolCell struct {
+	distsys.ArchetypeResourceLeafMixin
+	v, old tla.Value
+}
+
+func (b *boolCell) Abort(distsys.ArchetypeInterface) chan struct{}  { b.v = b.old; return nil }
+func (b *boolCell) PreCommit(distsys.ArchetypeInterface) chan error { return nil }
+func (b *boolCell) Commit(distsys.ArchetypeInterface) chan struct{} { b.old = b.v; return nil }
+func (b *boolCell) ReadValue(distsys.ArchetypeInterface) (tla.Value, error) {
+	return b.v, nil
+}
+func (b *boolCell) WriteValue(_ distsys.ArchetypeInterface, v tla.Value) error {
+	b.v = v.StripVClock()
 	return nil
+}
+func (b *boolCell) Close() error { return nil }
+
+type logEvent struct {
+	CsElements []struct {
+		Tag  string `json:"tag"`
+		Name struct {
+			Prefix string `json:"prefix"`
+			Name   string `json:"name"`
+		} `json:"name"`
+		Indices  []string `json:"indices"`
+		Value    string   `json:"value"`
+		OldValue *string  `json:"oldValue"`
+	} `json:"csElements"`
+}
+
+func runLockSvc(traceRoot string, seq int, nClients int, rng *rand.Rand) (lines []rec) {
+	caseDir := filepath.Join(traceRoot, fmt.Sprintf("locksvc%06d", seq))
+	n := nClients + 1 // context i (1-based) has self = i-1; the server is self 0
+	addrs, err := freeAddrs(n)
+	if err != nil {
+		return []rec{{"e": "case", "id": "locksvc", "seq": seq}, {"e": "infra", "what": "no free port: " + err.Error()}}
+	}
+	var ctxs []*cctx
+	calls := make([][]resCall, n)
+	ctxDescr := []rec{}
+	initStore := map[string]string{}
+	recMode := []string{"file", "mem"}[seq%2]
+
+	envMu.Lock()
+	if recMode == "file" {
+		os.Setenv("PGO_TRACE_DIR", caseDir)
+	}
+	for i := 1; i <= n; i++ {
+		self := tla.MakeNumber(int32(i - 1))
+		arch := locksvc.AClient
+		if i == 1 {
+			arch = locksvc.AServer
+		}
+		c := &cctx{idx: i, arch: arch.Name, self: self, g: &gate{arrive: make(chan string), grant: make(chan bool)}, done: make(chan error, 1)}
+		me := i - 1
+		mb := resources.NewTCPMailboxes(func(idx tla.Value) (resources.MailboxKind, string) {
+			j := int(idx.AsNumber())
+			if j == me {
+				return resources.MailboxesLocal, addrs[j]
+			}
+			return resources.MailboxesRemote, addrs[j]
+		}, resources.WithMailboxesDialTimeout(watchdog), resources.WithMailboxesReadTimeout(300*time.Millisecond), resources.WithMailboxesWriteTimeout(watchdog))
+		func() {
+			defer func() {
+				if r := recover(); r != nil {
+					lines = append(lines, rec{"e": "infra", "what": fmt.Sprint(r)})
+				}
+			}()
+			mb.Index(distsys.ArchetypeInterface{}, self)
+		}()
+		cfg := []distsys.MPCalContextConfigFn{
+			distsys.DefineConstantValue("NumClients", tla.MakeNumber(int32(nClients))),
+			distsys.SetFairnessCounter(c.g),
+			distsys.EnsureArchetypeRefParam("network", &tap{inner: mb, name: "network", calls: &calls[i-1], c: c}),
+		}
+		if i > 1 {
+			cells := resources.NewIncMap(func(tla.Value) distsys.ArchetypeResource {
+				return &boolCell{v: tla.ModuleFALSE, old: tla.ModuleFALSE}
+			})
+			cfg = append(cfg, distsys.EnsureArchetypeRefParam("hasLock", &tap{inner: cells, name: "hasLock", calls: &calls[i-1], c: c}))
+		}
+		if recMode == "mem" {
+			c.mem = &memRecorder{}
+			cfg = append(cfg, distsys.SetTraceRecorder(c.mem))
+		} else {
+			c.tail = &fileTail{dir: caseDir, self: strings.ReplaceAll(self.String(), "\"", "")}
+		}
+		c.ctx = distsys.NewMPCalContext(self, arch, cfg...)
+		ctxs = append(ctxs, c)
+		ctxDescr = append(ctxDescr, rec{"a": arch.Name, "s": self.String()})
+		initStore[fmt.Sprintf("c%d..pc", i)] = tla.MakeString(arch.Label).String()
+	}
+	envMu.Unlock()
+	// initial values of the archetype locals (from the generated PreAmble)
+	initStore["c1.msg"] = tla.Value{}.String()
+	initStore["c1.q"] = tla.MakeTuple().String()
+	if len(lines) > 0 {
+		return append([]rec{{"e": "case", "id": "locksvc", "seq": seq}}, lines...)
+	}
+	lines = append(lines, rec{"e": "case", "id": fmt.Sprintf("locksvc:%d-clients", nClients), "seq": seq, "rec": recMode, "ctxs": ctxDescr, "init": initStore, "n": n})
+
+	takeLogs := func(c *cctx) ([]json.RawMessage, error) {
+		if c.mem != nil {
+			return c.mem.take(), nil
+		}
+		return c.tail.take()
+	}
+	wait := func(c *cctx) error {
+		select {
+		case pc := <-c.g.arrive:
+			c.parked = pc
+			return nil
+		case err := <-c.done:
+			c.ended = true
+			c.runErr = err
+			return nil
+		case <-time.After(watchdog):
+			return fmt.Errorf("watchdog: context %d did not come back to the gate", c.idx)
+		}
+	}
+	for _, c := range ctxs {
+		go func(c *cctx) {
+			var err error
+			defer func() {
+				if r := recover(); r != nil {
+					if _, ok := r.(stopSentinel); ok {
+						c.done <- errStopped
+						return
+					}
+					c.done <- fmt.Errorf("panic: %v", r)
+					return
+				}
+				c.done <- err
+			}()
+			err = c.ctx.Run()
+		}(c)
+	}
+	okStart := true
+	for _, c := range ctxs {
+		if err := wait(c); err != nil {
+			lines = append(lines, rec{"e": "infra", "what": err.Error()})
+			okStart = false
+		}
+	}
+	// message tokens
+	tok := 0
+	type key struct {
+		dst int
+		v   string
+	}
+	inflight := map[key][]int{}
+	pending := make([]int, n) // committed, unread messages per mailbox (index = self)
+	readsAt := map[string]bool{"AServer.serverReceive": true, "AClient.criticalSection": true}
+
+	steps := 0
+	for okStart && steps < 400 {
+		var cand []*cctx
+		allClientsDone := true
+		for _, c := range ctxs[1:] {
+			if !c.ended {
+				allClientsDone = false
+			}
+		}
+		for _, c := range ctxs {
+			if c.ended {
+				continue
+			}
+			if strings.HasSuffix(c.parked, ".Done") {
+				cand = append(cand, c) // lets Run return
+				continue
+			}
+			if readsAt[c.parked] && pending[c.idx-1] == 0 {
+				if rng.Intn(12) != 0 || (allClientsDone && c.idx == 1) { // rarely: attempt a read of an empty mailbox (aborts)
+					continue
+				}
+			}
+			cand = append(cand, c)
+		}
+		if len(cand) == 0 {
+			break
+		}
+		c := cand[rng.Intn(len(cand))]
+		if strings.HasSuffix(c.parked, ".Done") {
+			c.g.grant <- true
+			if err := wait(c); err != nil {
+				lines = append(lines, rec{"e": "infra", "what": err.Error()})
+				break
+			}
+			continue
+		}
+		steps++
+		c.k++
+		c.commits, c.aborts = 0, 0
+		calls[c.idx-1] = nil
+		c.g.grant <- true
+		if err := wait(c); err != nil {
+			lines = append(lines, rec{"e": "infra", "what": err.Error()})
+			break
+		}
+		logs, err := takeLogs(c)
+		if err != nil {
+			lines = append(lines, rec{"e": "infra", "what": err.Error()})
+			break
+		}
+		if logs == nil {
+			logs = []json.RawMessage{}
+		}
+		// the attempt's own verdict on commit/abort: what the runtime did to the resources. Every
+		// section of locksvc touches .pc only or a tapped resource; sections that touch no tapped
+		// resource (serverLoop) cannot abort.
+		aborted := c.aborts > 0
+		if c.ended && c.runErr != nil && c.runErr != errStopped {
+			lines = append(lines, rec{"e": "infra", "what": fmt.Sprintf("Run of context %d returned %v", c.idx, c.runErr)})
+			break
+		}
+		// ground-truth operations: resource calls as recorded by the taps, locals as logged
+		ops := []gtOp{}
+		rc := calls[c.idx-1]
+		ri := 0
+		var writesNow []key
+		var writeToks []int
+		if len(logs) == 1 {
+			var ev logEvent
+			if err := json.Unmarshal(logs[0], &ev); err != nil {
+				lines = append(lines, rec{"e": "infra", "what": "unparsable event: " + err.Error()})
+				break
+			}
+			for _, e := range ev.CsElements {
+				if e.Name.Name == "network" || e.Name.Name == "hasLock" {
+					if ri >= len(rc) {
+						// logged but never performed: keep an impossible operation so that ExactElements fails
+						ops = append(ops, gtOp{T: "none", P: c.arch, N: e.Name.Name, Ix: []string{}, V: "", Ch: []int{}, Kind: "other"})
+						continue
+					}
+					call := rc[ri]
+					ri++
+					op := gtOp{T: "write", P: c.arch, N: call.name, Ix: ixStrings(call.ix), V: call.v.String(), Ch: []int{}, Kind: "other"}
+					if call.read {
+						op.T = "read"
+					}
+					if call.name == "network" && len(call.ix) == 1 {
+						op.Kind = "tcp"
+						dst := int(call.ix[0].AsNumber())
+						kk := key{dst, call.v.String()}
+						if call.read {
+							if q := inflight[kk]; len(q) > 0 {
+								op.Ch = []int{q[0]}
+								if !aborted {
+									inflight[kk] = q[1:]
+									pending[dst]--
+								}
+							}
+						} else {
+							tok++
+							op.Ch = []int{tok}
+							writesNow = append(writesNow, kk)
+							writeToks = append(writeToks, tok)
+						}
+					}
+					ops = append(ops, op)
+				} else {
+					kk := fmt.Sprintf("c%d.%s", c.idx, e.Name.Name)
+					ck := kk
+					if len(e.Indices) > 0 {
+						kk += "[" + strings.Join(e.Indices, ",") + "]"
+					}
+					ops = append(ops, gtOp{T: e.Tag, P: e.Name.Prefix, N: e.Name.Name, Ix: e.Indices, V: e.Value, Ch: []int{}, Kind: "local", Key: kk, Ck: ck})
+				}
+			}
+		}
+		for ; ri < len(rc); ri++ { // performed but not logged
+			call := rc[ri]
+			t := "write"
+			if call.read {
+				t = "read"
+			}
+			ops = append(ops, gtOp{T: t, P: c.arch, N: call.name, Ix: ixStrings(call.ix), V: call.v.String(), Ch: []int{}, Kind: "other"})
+		}
+		if !aborted {
+			for i, kk := range writesNow {
+				inflight[kk] = append(inflight[kk], writeToks[i])
+				pending[kk.dst]++
+			}
+		}
+		lines = append(lines, rec{"e": "att", "c": c.idx, "k": c.k, "sec": 0, "label": c.parked, "ab": aborted, "ops": ops, "logs": logs})
+	}
+	for _, c := range ctxs {
+		if c.ended {
+			continue
+		}
+		select {
+		case c.g.grant <- strings.HasSuffix(c.parked, ".Done"): // Done: let Run return; otherwise stop it
+		case <-time.After(watchdog):
+		}
+	}
+	for _, c := range ctxs {
+		if c.ended {
+			continue
+		}
+		select {
+		case err := <-c.done:
+			c.ended = true
+			c.runErr = err
+		case <-time.After(watchdog):
+			lines = append(lines, rec{"e": "infra", "what": fmt.Sprintf("watchdog: context %d did not terminate", c.idx)})
+		}
+	}
+	extra := []int{}
+	for _, c := range ctxs {
+		logs, _ := takeLogs(c)
+		extra = append(extra, len(logs))
+		if c.tail != nil {
+			c.tail.close()
+		}
+	}
+	clientsDone := 0
+	for _, c := range ctxs[1:] {
+		if c.runErr == nil {
+			clientsDone++
+		}
+	}
+	lines = append(lines, rec{"e": "end", "extra": extra, "steps": steps, "clients_done": clientsDone})
+	if recMode == "file" {
+		os.RemoveAll(caseDir)
+	}
+	return lines
 }
